@@ -1847,7 +1847,9 @@ pub fn chaos_round(out: &mut Out, rng: &mut Rng, t0: u64, round: usize) {
     d.late_pct = *rng.pick(&[0u64, 0, 15]);
     d.reachable = rng.chance(1, 2);
     if rng.chance(1, 3) {
-        d.tid0 = Some(u32::MAX - rng.below(30) as u32);
+        // just below a wrap-around of the counter or of one of the byte lengths ids are written with
+        let edge = *rng.pick(&[u32::MAX, u32::MAX, 65_536, 16_777_216, 256]);
+        d.tid0 = Some(edge - rng.below(30) as u32);
     }
     let mode = if rng.chance(1, 4) { "s" } else { "c" };
     let (cfg_pub, real_ip) = if public {
